@@ -74,4 +74,47 @@ func init() {
 		"buf[n-4] == 'e' && buf[n-3] == '-' && buf[n-2] == '0'", "buf[n-4] == 'e' && buf[n-3] == '-'", "float:edit")
 	add("c10-preview-uint-as-int", "C10.json", "pkg/interp/preview.go",
 		"return mathx.PadFormatUint(vv, df.FormatBase(), true, 0)", "return mathx.PadFormatInt(int64(vv), df.FormatBase(), true, 0)", "preview:uint64")
+	// second round: clamp of the bits read, units, end annotation, float clamp sign, buffer aliases, indentation
+	add("c10-clamp-off-by-one", "C10.dump.addr", dumpGo,
+		"maxDisplaySizeBits := bufferLastBit - startByte*8 + 1",
+		"maxDisplaySizeBits := bufferLastBit - startByte*8", "range:clamp")
+	add("c10-clamp-from-unaligned-start", "C10.dump.addr", dumpGo,
+		"maxDisplaySizeBits := bufferLastBit - startByte*8 + 1",
+		"maxDisplaySizeBits := bufferLastBit - startBit + 1", "range:clamp")
+	add("c10-units-last-byte-is-last-bit", "C10.dump.units", dumpGo,
+		"bufferLastByte := bufferLastBit / 8",
+		"bufferLastByte := bufferLastBit", "units:")
+	add("c10-units-display-bytes-as-bits", "C10.dump.units", dumpGo,
+		"lastDisplayBit = startBit + (int64(opts.DisplayBytes)*8 - 1)",
+		"lastDisplayBit = startBit + (int64(opts.DisplayBytes) - 1)", "units:")
+	add("c10-units-clamp-bytes-from-bits", "C10.dump.units", dumpGo,
+		"maxDisplaySizeBits := bufferLastBit - startByte*8 + 1",
+		"maxDisplaySizeBits := bufferLastBit - startByte + 1", "units:")
+	add("c10-end-annotation-by-byte", "C10.dump.range", dumpGo,
+		"if stopBit == bufferLastBit {",
+		"if stopByte == bufferLastByte {", "marker:end")
+	const encGo = "internal/colorjson/encoder.go"
+	add("c10-float-neg-inf-to-pos-max", "C10.json", encGo,
+		"\t} else if f <= -math.MaxFloat64 {\n\t\tf = -math.MaxFloat64",
+		"\t} else if f <= -math.MaxFloat64 {\n\t\tf = math.MaxFloat64", "float:clamp")
+	add("c10-float-isinf-any-sign", "C10.json", encGo,
+		"\tif f >= math.MaxFloat64 {\n\t\tf = math.MaxFloat64\n\t} else if f <= -math.MaxFloat64 {\n\t\tf = -math.MaxFloat64\n\t}",
+		"\tif math.IsInf(f, 0) {\n\t\tf = math.MaxFloat64\n\t}", "float:clamp")
+	add("c10-float-clamp-threshold", "C10.json", encGo,
+		"if f >= math.MaxFloat64 {", "if f >= math.MaxFloat32 {", "float:clamp")
+	add("c10-indent-stale-bytes", "C10.alias", encGo,
+		"\t\tfor n -= l; n > 0; n, l = n-l, l*2 {\n\t\t\tif n < l {\n\t\t\t\tl = n\n\t\t\t}\n\t\t\te.w.Write(e.w.Bytes()[e.w.Len()-l:])",
+		"\t\tb := e.w.Bytes()\n\t\tfor n -= l; n > 0; n, l = n-l, l*2 {\n\t\t\tif n < l {\n\t\t\t\tl = n\n\t\t\t}\n\t\t\te.w.Write(b[len(b)-l:])", "alias:")
+	add("c10-flush-after-summarised-write", "C10.alias", encGo,
+		"\t_, err := e.out.Write(e.w.Bytes())\n\te.w.Reset()",
+		"\tb := e.w.Bytes()\n\te.writeByte(10, nil)\n\t_, err := e.out.Write(b)\n\te.w.Reset()", "alias:")
+	add("c10-column-bytes-before-write", "C10.alias", "internal/columnwriter/columnwriter.go",
+		"\tbb.Write(p)\n\n\tb := bb.Bytes()",
+		"\tb := bb.Bytes()\n\tbb.Write(p)\n\tb = b[:bb.Len()]", "alias:")
+	add("c10-indent-stale-len", "C10.json", encGo,
+		"\t\tfor n -= l; n > 0; n, l = n-l, l*2 {\n\t\t\tif n < l {\n\t\t\t\tl = n\n\t\t\t}\n\t\t\te.w.Write(e.w.Bytes()[e.w.Len()-l:])",
+		"\t\tn0 := e.w.Len()\n\t\tfor n -= l; n > 0; n, l = n-l, l*2 {\n\t\t\tif n < l {\n\t\t\t\tl = n\n\t\t\t}\n\t\t\te.w.Write(e.w.Bytes()[n0-l:])", "indent:src")
+	add("c10-indent-not-whitespace", "C10.json", encGo,
+		"e.writeIndentInternal(n, \"                                \")",
+		"e.writeIndentInternal(n, \"                               .\")", "indent:chars")
 }
